@@ -509,6 +509,15 @@ func c07GzipPull(c *core.Ctx) {
 	}
 	tgtKeyNil := f.NilKey(errTarget)
 	tgtEOF := "eq:" + f.Render(errTarget) + "==@io.EOF"
+	// once the copy error has been stored into the reader's error field, tests on that field
+	// speak about the copy error too
+	fieldEOF, fieldNil := "", ""
+	eofIs := func(st *flow.State, v flow.Val) bool {
+		if st.Is(tgtEOF, v) {
+			return true
+		}
+		return fieldEOF != "" && st.Is("ev:kept", flow.True) && !st.Is("ev:replaced", flow.True) && st.Is(fieldEOF, v)
+	}
 	res := analyze(c, f, flow.Config{NoHavoc: true, OnNode: func(st *flow.State, n ast.Node) {
 		as, ok := n.(*ast.AssignStmt)
 		if !ok {
@@ -526,10 +535,12 @@ func c07GzipPull(c *core.Ctx) {
 			if len(as.Rhs) == len(as.Lhs) {
 				if id, ok := ast.Unparen(as.Rhs[i]).(*ast.Ident); ok && !isField(errTarget) && f.Info.Uses[id] != nil && f.Render(id) == f.Render(errTarget) {
 					st.Set("ev:kept", flow.True)
+					fieldEOF = "eq:" + f.Render(l) + "==@io.EOF"
+					fieldNil = f.NilKey(l)
 					continue
 				}
 			}
-			if !st.Is(tgtEOF, flow.True) {
+			if !eofIs(st, flow.True) {
 				st.Set("ev:replaced", flow.True)
 			} else {
 				st.Set("ev:eofHandled", flow.True)
@@ -552,8 +563,9 @@ func c07GzipPull(c *core.Ctx) {
 		if st.Is("ev:eofHandled", flow.True) && !st.Is("ev:replaced", flow.True) {
 			continue // the source was drained (io.EOF); what follows concerns the gzip trailer
 		}
-		failure := st.Is(tgtEOF, flow.False) && !st.Is(tgtKeyNil, flow.True)
-		unknown := st.Get(tgtEOF) == flow.Unknown && !st.Is(tgtKeyNil, flow.True)
+		isNil := st.Is(tgtKeyNil, flow.True) || (fieldNil != "" && st.Is("ev:kept", flow.True) && st.Is(fieldNil, flow.True))
+		failure := eofIs(st, flow.False) && !isNil
+		unknown := !eofIs(st, flow.True) && !eofIs(st, flow.False) && !isNil
 		kept := st.Is("ev:kept", flow.True) || isField(errTarget)
 		if (failure || unknown) && (!kept || st.Is("ev:replaced", flow.True)) {
 			bad = st
